@@ -24,6 +24,11 @@ impl Rng {
     }
 }
 
+#[derive(Clone, Debug, PartialEq)]
+pub enum BodyExp { Address(u128), Vftable(String), Field(String, String) }
+/// what the generator knows about one function of a type
+#[derive(Clone, Debug)]
+pub struct FnExp { pub name: String, pub public: bool, pub cc: String, pub has_recv: bool, pub body: BodyExp }
 #[derive(Clone)]
 struct Known {
     module: usize,
@@ -34,6 +39,10 @@ struct Known {
     has_vftable: bool,
     /// the lines of the type's vftable block (own or inherited): a derived type may repeat them and add more
     vft_decl: Option<String>,
+    /// the type's associated functions (re-exposed base members first, then its own impl functions), and the named
+    /// functions of its vftable (own or inherited)
+    assoc: Vec<FnExp>,
+    vfs: Vec<FnExp>,
 }
 
 const MODULE_SETS: &[&[&str]] = &[
@@ -115,7 +124,14 @@ fn refer(k: &Known, m: usize, uses: &mut Vec<String>, mods: &[&str], r: &mut Rng
 /// what the generator knows about its program: every item with the size and alignment it was laid out for
 pub struct Expect {
     pub items: Vec<(String, u128, u128)>,
+    /// (type path, field name, byte offset)
+    pub fields: Vec<(String, String, u128)>,
+    /// (type path, associated functions in order, named vftable functions in order)
+    pub fns: Vec<(String, Vec<FnExp>, Vec<FnExp>)>,
+    /// (enum path, (variant, value) in order, default index)
+    pub enums: Vec<(String, Vec<(String, i128)>, Option<usize>)>,
 }
+fn unraw(s: &str) -> &str { s.strip_prefix("r#").unwrap_or(s) }
 pub fn program(seed: u64, index: u64, ptr: usize) -> Vec<(&'static str, String)> {
     program_with_expectation(seed, index, ptr).0
 }
@@ -128,6 +144,8 @@ pub fn program_with_expectation(seed: u64, index: u64, ptr: usize) -> (Vec<(&'st
     let mut bodies: Vec<String> = vec![String::new(); mods.len()];
     let mut uses: Vec<Vec<String>> = vec![vec![]; mods.len()];
     let mut counter = 0usize;
+    let mut exp_fields: Vec<(String, String, u128)> = vec![];
+    let mut exp_enums: Vec<(String, Vec<(String, i128)>, Option<usize>)> = vec![];
     let n_items = 2 + r.below(6);
     for _ in 0..n_items {
         let m = r.below(mods.len());
@@ -163,18 +181,23 @@ pub fn program_with_expectation(seed: u64, index: u64, ptr: usize) -> (Vec<(&'st
             if !attrs.is_empty() { out.push_str(&format!("#[{}]\n", attrs.join(", "))); }
             out.push_str(&format!("{}enum {}: {} {{\n", vis(&mut r), name, base));
             let signed = base.starts_with('i');
+            let mut vals: Vec<(String, i128)> = vec![];
+            let mut next: i128 = 0;
             for v in 0..nv {
                 if defaultable && v == default_at { out.push_str("    #[default]\n"); }
-                let val = match r.below(4) {
-                    0 => String::new(),
-                    1 => format!(" = {}", r.below(100)),
-                    2 if signed => format!(" = -{}", 1 + r.below(50)),
-                    _ => format!(" = 0x{:X}", r.below(120)),
+                let (val, n) = match r.below(4) {
+                    0 => (String::new(), next),
+                    1 => { let x = r.below(100) as i128; (format!(" = {x}"), x) }
+                    2 if signed => { let x = -(1 + r.below(50) as i128); (format!(" = {x}"), x) }
+                    _ => { let x = r.below(120) as i128; (format!(" = 0x{x:X}"), x) }
                 };
+                vals.push((format!("V{v}"), n));
+                next = n + 1;
                 out.push_str(&format!("    V{v}{val},\n"));
             }
             out.push_str("}\n");
-            known.push(Known { module: m, name: name.clone(), size, align: size, is_struct: false, has_vftable: false, vft_decl: None });
+            exp_enums.push((format!("{}::{}", mods[m], name), vals, if defaultable { Some(default_at) } else { None }));
+            known.push(Known { module: m, name: name.clone(), size, align: size, is_struct: false, has_vftable: false, vft_decl: None, assoc: vec![], vfs: vec![] });
         } else {
             // ---- struct
             let packed = r.chance(1, 6);
@@ -190,6 +213,9 @@ pub fn program_with_expectation(seed: u64, index: u64, ptr: usize) -> (Vec<(&'st
             let mut base_vfuncs: Option<String> = None;
             let nf = r.below(5);
             let mut specs: Vec<(String, u128, u128, bool)> = vec![]; // (decl text without padding, size, align, is_base)
+            let mut spec_names: Vec<String> = vec![];
+            let mut bases_used: Vec<(String, Known)> = vec![];
+            let mut my_vfs: Vec<FnExp> = vec![];
             let mut nbases = 0;
             for f in 0..nf {
                 let bases: Vec<Known> = known.iter().filter(|k| k.is_struct && k.size > 0).cloned().collect();
@@ -200,6 +226,8 @@ pub fn program_with_expectation(seed: u64, index: u64, ptr: usize) -> (Vec<(&'st
                     // the derived type's own block would have to repeat the base slots: keep it simple, no own block then
                     let t = refer(&k, m, &mut uses[m], mods, &mut r);
                     specs.push((format!("    #[base]\n    {}b{f}: {t},\n", vis(&mut r)), k.size, k.align, true));
+                    spec_names.push(format!("b{f}"));
+                    bases_used.push((format!("b{f}"), k.clone()));
                     nbases += 1;
                     if nbases == 1 && k.has_vftable { base_vfuncs = Some(String::new()); }
                 } else {
@@ -209,6 +237,7 @@ pub fn program_with_expectation(seed: u64, index: u64, ptr: usize) -> (Vec<(&'st
                     if specs.iter().any(|x| x.0.contains(&format!(" {fname}:"))) { continue; }
                     let d = doc(&mut r, "    ");
                     specs.push((format!("{d}    {}{fname}: {t},\n", vis(&mut r)), s, a, false));
+                    spec_names.push(fname.clone());
                 }
             }
             let _ = base_vfuncs;
@@ -221,13 +250,16 @@ pub fn program_with_expectation(seed: u64, index: u64, ptr: usize) -> (Vec<(&'st
                 for v in 0..nvf {
                     let mut attrs = vec![];
                     if r.chance(1, 4) { slot += r.below(3); attrs.push(format!("index({slot})")); }
-                    if r.chance(1, 3) { attrs.push(format!("calling_convention(\"{}\")", r.pick(CONVENTIONS))); }
+                    let mut vcc = "thiscall".to_string();
+                    if r.chance(1, 3) { vcc = r.pick(CONVENTIONS).to_string(); attrs.push(format!("calling_convention(\"{vcc}\")")); }
                     block.push_str(&doc(&mut r, "        "));
                     if !attrs.is_empty() { block.push_str(&format!("        #[{}]\n", attrs.join(", "))); }
                     let recv = if r.chance(1, 2) { "&self" } else { "&mut self" };
                     let args = if r.chance(1, 2) { ", a: u32".to_string() } else if r.chance(1, 2) { ", f: u64, this: *const u8".to_string() } else { String::new() };
                     let ret = if r.chance(1, 2) { " -> u32" } else { "" };
-                    block.push_str(&format!("        {}fn vf{v}({recv}{args}){ret};\n", vis(&mut r)));
+                    let vv = vis(&mut r);
+                    block.push_str(&format!("        {vv}fn vf{v}({recv}{args}){ret};\n"));
+                    my_vfs.push(FnExp { name: format!("vf{v}"), public: !vv.is_empty(), cc: vcc, has_recv: true, body: BodyExp::Vftable(format!("vf{v}")) });
                     vfuncs.push(format!("vf{v}"));
                     slot += 1;
                 }
@@ -239,26 +271,37 @@ pub fn program_with_expectation(seed: u64, index: u64, ptr: usize) -> (Vec<(&'st
             } else if first_base_has_vftable {
                 has_vft = true;
                 my_vft = first_base_vft.clone();
+                my_vfs = bases_used[0].1.vfs.clone();
                 // now and then the derived type spells the inherited table out (every base slot repeated, in place)
                 // and appends slots of its own
                 if let (Some(base_lines), true) = (&first_base_vft, r.chance(1, 2)) {
                     let mut block = format!("    vftable {{\n{base_lines}");
                     for v in 0..r.below(3) {
-                        block.push_str(&format!("        {}fn dv{counter}_{v}(&self, a: u16);\n", vis(&mut r)));
+                        let vv = vis(&mut r);
+                        block.push_str(&format!("        {vv}fn dv{counter}_{v}(&self, a: u16);\n"));
+                        my_vfs.push(FnExp { name: format!("dv{counter}_{v}"), public: !vv.is_empty(), cc: "thiscall".into(), has_recv: true, body: BodyExp::Vftable(format!("dv{counter}_{v}")) });
                     }
                     my_vft = Some(block["    vftable {\n".len()..].to_string());
                     block.push_str("    },\n");
                     fields.push_str(&block);
                 }
             }
-            for (decl, s, a, _is_base) in &specs {
+            for (si, (decl, s, a, _is_base)) in specs.iter().enumerate() {
                 let a_eff = if packed { 1 } else { *a };
                 if a_eff > 0 && off % a_eff != 0 {
                     let pad = a_eff - off % a_eff;
-                    fields.push_str(&format!("    _: unknown<{pad}>,\n"));
+                    // the gap is either spelled as padding or as an explicit address on the field (equivalent, C20)
+                    if r.chance(1, 2) {
+                        fields.push_str(&format!("    _: unknown<{pad}>,\n"));
+                    } else {
+                        fields.push_str(&format!("    #[address({})]\n", off + pad));
+                    }
                     off += pad;
+                } else if r.chance(1, 6) {
+                    fields.push_str(&format!("    #[address(0x{:X})]\n", off));
                 }
                 fields.push_str(decl);
+                exp_fields.push((format!("{}::{}", mods[m], name), spec_names[si].clone(), off));
                 off += s;
                 max_align = max_align.max(*a);
             }
@@ -287,13 +330,29 @@ pub fn program_with_expectation(seed: u64, index: u64, ptr: usize) -> (Vec<(&'st
             out.push_str(&doc(&mut r, ""));
             out.push_str(&format!("#[{}]\n", attrs.join(", ")));
             out.push_str(&format!("{}type {} {{\n{}}}\n", vis(&mut r), name, fields));
+            // ---- what the bases re-expose (C07): public associated functions of every base, public virtual functions of
+            // every base but the first; a taken name becomes <field>_<name>; a function without a receiver keeps its body
+            let mut my_assoc: Vec<FnExp> = vec![];
+            let mut used: Vec<String> = my_vfs.iter().map(|f| f.name.clone()).collect();
+            for (bi, (field, bk)) in bases_used.iter().enumerate() {
+                let mut srcs: Vec<FnExp> = bk.assoc.iter().filter(|f| f.public).cloned().collect();
+                if bi > 0 { srcs.extend(bk.vfs.iter().filter(|f| f.public).cloned()); }
+                for f in srcs {
+                    let nm = if used.contains(&f.name) { format!("{field}_{}", unraw(&f.name)) } else { f.name.clone() };
+                    let body = if f.has_recv { BodyExp::Field(field.clone(), f.name.clone()) } else { f.body.clone() };
+                    used.push(nm.clone());
+                    my_assoc.push(FnExp { name: nm, public: true, cc: f.cc.clone(), has_recv: f.has_recv, body });
+                }
+            }
             // ---- impl block
             if r.chance(1, 2) {
                 let nfn = 1 + r.below(3);
                 out.push_str(&format!("impl {name} {{\n"));
                 for k in 0..nfn {
-                    let mut attrs = vec![format!("address(0x{:X})", 0x40_0000 + r.below(0x1000) * 16 + if r.chance(1, 5) { 0x1_0000_0000 } else { 0 })];
-                    if r.chance(1, 3) { attrs.push(format!("calling_convention(\"{}\")", r.pick(CONVENTIONS))); }
+                    let faddr: u128 = 0x40_0000 + (r.below(0x1000) as u128) * 16 + if r.chance(1, 5) { 0x1_0000_0000 } else { 0 };
+                    let mut attrs = vec![format!("address(0x{:X})", faddr)];
+                    let mut fcc: Option<String> = None;
+                    if r.chance(1, 3) { let c = r.pick(CONVENTIONS).to_string(); attrs.push(format!("calling_convention(\"{c}\")")); fcc = Some(c); }
                     out.push_str(&doc(&mut r, "    "));
                     out.push_str(&format!("    #[{}]\n", attrs.join(", ")));
                     let recv = match r.below(3) { 0 => "", 1 => "&self", _ => "&mut self" };
@@ -309,11 +368,14 @@ pub fn program_with_expectation(seed: u64, index: u64, ptr: usize) -> (Vec<(&'st
                     // or the build is rejected - both are legitimate outcomes)
                     // unique names: a program of this generator is accepted by construction (a rejection is a finding)
                     let fname = format!("{}{counter}_{k}", ["m", "get_x", "r#fn", "call"][k % 4]);
-                    out.push_str(&format!("    {}fn {fname}({}){ret};\n", vis(&mut r), args.join(", ")));
+                    let fv = vis(&mut r);
+                    out.push_str(&format!("    {fv}fn {fname}({}){ret};\n", args.join(", ")));
+                    let cc = fcc.unwrap_or_else(|| if recv.is_empty() { "system".to_string() } else { "thiscall".to_string() });
+                    my_assoc.push(FnExp { name: fname, public: !fv.is_empty(), cc, has_recv: !recv.is_empty(), body: BodyExp::Address(faddr) });
                 }
                 out.push_str("}\n");
             }
-            known.push(Known { module: m, name: name.clone(), size: off, align, is_struct: true, has_vftable: has_vft, vft_decl: my_vft });
+            known.push(Known { module: m, name: name.clone(), size: off, align, is_struct: true, has_vftable: has_vft, vft_decl: my_vft, assoc: my_assoc, vfs: my_vfs });
         }
         bodies[m].push_str(&out);
         // extern value now and then
@@ -335,5 +397,6 @@ pub fn program_with_expectation(seed: u64, index: u64, ptr: usize) -> (Vec<(&'st
         res.push((*path, text));
     }
     let items = known.iter().map(|k| (format!("{}::{}", mods[k.module], k.name), k.size, k.align)).collect();
-    (res, Expect { items })
+    let fns = known.iter().filter(|k| k.is_struct).map(|k| (format!("{}::{}", mods[k.module], k.name), k.assoc.clone(), k.vfs.clone())).collect();
+    (res, Expect { items, fields: exp_fields, fns, enums: exp_enums })
 }
